@@ -43,6 +43,9 @@ PROPS = {
         "tests": [
             T("TestC03Enum", "fleet", 1, 1, enum=True, qshards=4, shards=8, procs=4),
             T("TestC03Loop", "fleet", 600, 64000, shards=16, qshards=4, procs=4),
+            # crash / restart histories of the C05 fleet (emptied restarts, slow own snapshot, peers merged first) with the
+            # clause: a loop that reports the LMDB's last transaction as uploaded has published every key its application put
+            T("TestC05Enum", "fleet", 1, 1, enum=True, qshards=8, shards=8, procs=4),
         ],
         "known_tests": [T("TestKnownC03", "fleet", 1, 1)],
         "assumptions": [
@@ -156,6 +159,7 @@ PROPS = {
             # the same buckets with undecodable blobs under the race detector: a data race between the downloaders'
             # corrupt-blob bookkeeping and the listing pass ends the process ("concurrent map read and map write")
             T("TestC16Receiver", "recv", 120, 8000, shards=16, qshards=4, race=True, gomaxprocs=[4, 2, 8, 16]),
+            T("TestC08OwnCorruptEnum", "fleet", 1, 1, enum=True, qshards=4, shards=8, procs=4),
         ],
         "fuzz": [{"pkg": "codec", "name": "FuzzUnmarshal", "time": "120s", "timeout": 600},
                  {"pkg": "codec", "name": "FuzzLoadData", "time": "120s", "timeout": 600}],
